@@ -1,0 +1,13 @@
+//go:build verif
+
+package upstream
+
+import "github.com/IrineSistiana/mosproxy/internal/upstream/transport"
+
+// VerifUdpParts exposes the two legs of a udp:// upstream (nil, nil for any other upstream) to the C14 check.
+func VerifUdpParts(u Upstream) (*transport.PipelineTransport, *transport.ReuseConnTransport) {
+	if f, ok := u.(*udpWithFallback); ok {
+		return f.u, f.t
+	}
+	return nil, nil
+}
